@@ -40,6 +40,8 @@ SIG_PRECIRC_GEN = "C10/generate_applied_gates/nested-measurement-tail-applied-la
 SIG_MIDFREQ = "C10/cirq/cmeasure-exact/mid_circuit_meas_freqs-not-recorded"
 SIG_ISV = "C10/cirq/sampled/save/initial_statevector-ignored"
 
+# SIG_PRECIRC_*, SIG_MIDFREQ and SIG_ISV name defects of earlier /repo revisions that were repaired by fix: commits
+# (7e6d7a0, 60e645f, a700d04); they are kept so that a return of the defect is reported under the same signature.
 # the witness of C10_replay_asis_refuted (coq/props/C10.v), replayed first on the real code
 WITNESS = {
     "n": 3, "prefix": [],
@@ -531,7 +533,7 @@ def compare_case(ck, case, ci, leaves, psi0, model_sim, model_gen, model_sel, as
                     path = "cmeasure-loop" if has_c else "piecewise"
                     mid = o["mid"]
                     if has_c and key != "" and set(mid) == {""} and abs(mid[""] - 1) < 1e-8:
-                        # known: the exact CMEASURE path hands the final-register frequencies to the splitter
+                        # (repaired by 60e645f) the exact CMEASURE path handed the final-register frequencies to the splitter
                         ck.violation(SIG_MIDFREQ, "simulate(desired_meas_result=%r) on a circuit with CMEASURE and n_shots=None leaves "
                                      "mid_circuit_meas_freqs = %r instead of {%r: 1.0}" % (b, mid, key), replay)
                     else:
@@ -690,23 +692,25 @@ def sampled_bad(case, mode, n_shots, f, sim, circ, branch):
     return bad
 
 
-def run_sampled(case, mode, n_shots, psi0, seed):
+def run_sampled(case, mode, n_shots, psi0, seed, force_isv=False):
+    """initial_statevector is passed when the case says so (always when it has a prefix circuit): with None the
+    all-at-once branch uses cirq's run(), with a vector it simulates shot by shot — both sub-branches are exercised."""
     from tangelo.linq import get_backend
     np.random.seed(seed)
     circ = make_circuit(case)
     sim = get_backend("cirq", n_shots=1 if mode == "oneshot" else n_shots)
-    isv = np_sim.to_lsq_first(psi0, case["n"])
+    isv = np_sim.to_lsq_first(psi0, case["n"]) if (force_isv or case.get("pass_isv", True) or case["prefix"]) else None
     f, sv = sim.simulate(circ, initial_statevector=isv, save_mid_circuit_meas=(mode != "nosave"),
                          return_statevector=(mode == "oneshot"))
     return f, sv, sim, circ
 
 
-def sampled_one(case, mode, n_shots, psi0, leaves, seed):
+def sampled_one(case, mode, n_shots, psi0, leaves, seed, force_isv=False):
     """Returns (signature or None, description, frequencies)."""
     n = case["n"]
     branch, vecs, risky_any = branch_table(case, leaves, psi0)
     try:
-        f, sv, sim, circ = run_sampled(case, mode, n_shots, psi0, seed)
+        f, sv, sim, circ = run_sampled(case, mode, n_shots, psi0, seed, force_isv)
     except Exception as e:          # noqa
         return "C10/cirq/sampled/%s/exception" % mode, "simulate(n_shots=%d) raised %r" % (n_shots, e), None
     bad = sampled_bad(case, mode, 1 if mode == "oneshot" else n_shots, f, sim, circ, branch)
@@ -725,7 +729,7 @@ def sampled_one(case, mode, n_shots, psi0, leaves, seed):
         # would the run be consistent with the all-zero initial state, i.e. was initial_statevector ignored?
         z = np.zeros(1 << n, dtype=complex)
         z[0] = 1
-        lz, _ = enumerate_outcomes(case, z, 8)
+        lz, _ = enumerate_outcomes(case, z, 64)
         bz, _, _ = branch_table(case, lz, z)
         if not sampled_bad(case, mode, n_shots, f, sim, circ, bz):
             sig = SIG_ISV
@@ -819,6 +823,17 @@ def records_desired(case, mode, n_shots, b, branch, vecs, seed):
     return bad, dict(allf)
 
 
+def records_save_isv(case, n_shots, seed):
+    n = case["n"]
+    psi = np.zeros(1 << n, dtype=complex)
+    psi[1 + seed % ((1 << n) - 1)] = 1
+    lv, _ = enumerate_outcomes(case, psi, 64)
+    sig, desc, allf = sampled_one(case, "save", n_shots, psi, lv, seed, force_isv=True)
+    if sig and sig != SIG_ISV:
+        sig = sig.replace("C10/cirq/sampled/save/", "C10/cirq/records/save-isv/")
+    return sig, desc, allf
+
+
 def records_checks(ck, case, ci, leaves, psi0, n_shots):
     n = case["n"]
     has_c = n_top(case, "c") > 0
@@ -826,11 +841,15 @@ def records_checks(ck, case, ci, leaves, psi0, n_shots):
     oks = sorted(branch)
     n_bits = (len(oks[0]) if oks else 0) + n
     cls = "ge21" if n_bits >= 21 else ("ge11" if n_bits >= 11 else "lt11")
-    for mode in (["cmeasure", "oneshot"] if has_c else ["save", "nosave", "oneshot", "desired-all", "desired-shots"]):
+    for mode in (["cmeasure", "oneshot"] if has_c else ["save", "save-isv", "nosave", "oneshot", "desired-all", "desired-shots"]):
         seed = ck.rng.randrange(1 << 30)
         replay = {"kind": "records", "case": case, "mode": mode, "n_shots": n_shots, "seed": seed}
         try:
-            if mode.startswith("desired"):
+            if mode == "save-isv":
+                # all-at-once branch started from a supplied initial statevector (a basis state other than |0..0>)
+                sig, desc, allf = records_save_isv(case, n_shots, seed)
+                replay["basis_state"] = 1 + seed % ((1 << n) - 1)
+            elif mode.startswith("desired"):
                 b = oks[seed % len(oks)]
                 replay["b"] = b
                 bad, allf = records_desired(case, mode[8:], n_shots, b, branch, vecs, seed)
@@ -1008,7 +1027,10 @@ def replay(data):
             print("all_frequencies:", allf)
             print("; ".join(bad))
             return 1 if bad else 0
-        sig, desc, f = sampled_one(case, r["mode"], r["n_shots"], psi0, leaves, r["seed"])
+        if r["mode"] == "save-isv":
+            sig, desc, f = records_save_isv(case, r["n_shots"], r["seed"])
+        else:
+            sig, desc, f = sampled_one(case, r["mode"], r["n_shots"], psi0, leaves, r["seed"])
         print("frequencies:", f)
         print(sig, desc)
         return 1 if sig else 0
